@@ -17,3 +17,7 @@ def stream(run, P):
     from rules import r_stream
     r_stream.run_adv(run, P)
     r_stream.run_cap(run, P)
+def uri(run, P):
+    from rules import r_lenread, r_uriclass
+    r_lenread.run(run, P)
+    r_uriclass.run(run, P)
